@@ -548,3 +548,36 @@ func (c *Ctx) ruleFreshDecode() {
 		c.ob("R-FRESHDECODE", "decodeMap:fresh-map", f.Pos(), ok, "the destination map is replaced by a fresh one only when it was nil: entries of a reused destination survive the decode")
 	}
 }
+
+// R-NOFLOATINT (C13): a balance does not pass through a float64.
+func (c *Ctx) ruleNoFloatInt() {
+	dir := "lib/genesis"
+	c.doc("R-NOFLOATINT", dir+": no big.NewInt(int64(f)) with f a float64: genesis amounts are 128-bit integers, a float64 holds 53 significant bits and int64(f) saturates at 2^63 — a balance of 2^53+1 is written as 2^53, 1e19 as 2^63")
+	sp := c.ssaPkg(dir)
+	if sp == nil {
+		return
+	}
+	n := 0
+	for _, f := range allFuncs(c, sp) {
+		ord := 0
+		eachInstr(f, func(_ *ssa.BasicBlock, _ int, in ssa.Instruction) {
+			call, ok := in.(*ssa.Call)
+			if !ok || calleeName(&call.Call) != "math/big.NewInt" {
+				return
+			}
+			n++
+			cv, ok := call.Call.Args[0].(*ssa.Convert)
+			if !ok {
+				return
+			}
+			bt, _ := cv.X.Type().Underlying().(*types.Basic)
+			if bt == nil || bt.Info()&types.IsFloat == 0 {
+				return
+			}
+			ord++
+			c.ob("R-NOFLOATINT", fmt.Sprintf("%s:big.NewInt(int64(float64))#%d", relName(f.String()), ord), call.Pos(), false,
+				shortFn(f)+" builds a big integer from a float64: amounts above 2^53 lose their low bits, above 2^63 they saturate")
+		})
+	}
+	c.ob("R-NOFLOATINT", "big.NewInt-sites-examined", token.NoPos, n > 0, fmt.Sprintf("%d big.NewInt calls examined", n))
+}
